@@ -396,6 +396,20 @@ func (q *qgen) clauseText(level int) string {
 		}
 		c.PID, c.PTemporal = ids[r.intn(2)], true
 		fmt.Fprintf(&b, `"%s"@[%s,%s]`, c.PID, lo, hi)
+		if level > 0 {
+			if r.chance(1, 6) {
+				c.PAlias = alias()
+				b.WriteString(" as " + c.PAlias)
+			}
+			if r.chance(1, 6) {
+				c.PIDAlias = alias()
+				b.WriteString(" id " + c.PIDAlias)
+			}
+			if r.chance(1, 5) {
+				c.PAnchorAlias = alias()
+				b.WriteString(" at " + c.PAnchorAlias)
+			}
+		}
 	}
 	b.WriteString(" ")
 	// object
@@ -438,10 +452,32 @@ func (q *qgen) clauseText(level int) string {
 	case x < 9:
 		c.OID, c.OAnchorBinding, c.OTemporal = ids[r.intn(2)], q.binding(), true
 		fmt.Fprintf(&b, `"%s"@[%s]`, c.OID, c.OAnchorBinding)
+		if level > 0 && r.chance(1, 4) {
+			c.OAlias = alias()
+			b.WriteString(" as " + c.OAlias)
+		}
 	default:
 		lo, hi := times[r.intn(3)], times[r.intn(3)]
+		if hi.Before(lo) {
+			lo, hi = hi, lo
+		}
 		c.OID, c.OLowerBound, c.OUpperBound, c.OTemporal = ids[r.intn(2)], &lo, &hi, true
 		fmt.Fprintf(&b, `"%s"@[%s,%s]`, c.OID, fmtT(lo), fmtT(hi))
+		if level > 0 {
+			// modifiers of an interval-bounded predicate in object position: AS, ID, AT in the grammar's order
+			if r.chance(1, 5) {
+				c.OAlias = alias()
+				b.WriteString(" as " + c.OAlias)
+			}
+			if r.chance(1, 5) {
+				c.OIDAlias = alias()
+				b.WriteString(" id " + c.OIDAlias)
+			}
+			if r.chance(1, 3) {
+				c.OAnchorAlias = alias()
+				b.WriteString(" at " + c.OAnchorAlias)
+			}
+		}
 	}
 	return b.String()
 }
@@ -614,6 +650,26 @@ func bindingsIn(s string) []string {
 // queryText builds a SELECT for the given mode: "plain" (C03), "optional" (C10), "limit" (C12/LIMIT).
 func (q *qgen) queryText(graphs []string) string {
 	r := q.r
+	if q.mode == "having" && !q.meta && r.chance(1, 8) {
+		// anchors against time constants written to the nanosecond, in several zones
+		id := []string{"p", "q"}[r.intn(2)]
+		tm := []time.Time{qt0, qt1, qt2, qt2.Add(-8 * time.Nanosecond), qt2.Add(time.Nanosecond), qt0.In(time.FixedZone("", -5*3600)),
+			qt1.Add(500 * time.Millisecond)}[r.intn(7)]
+		op := []string{"=", "<", ">"}[r.intn(3)]
+		neg := ""
+		if r.chance(1, 4) {
+			neg = "not "
+		}
+		var xgs []string
+		for _, g := range graphs {
+			xgs = append(xgs, hx(g))
+		}
+		q.lastProj, q.lastCls, q.lastTail, q.lastOuts = nil, nil, "", []string{"?t", "?n"}
+		q.intent = " xc=" + encClause(&semantic.GraphClause{SBinding: "?s", PID: id, PAnchorBinding: "?t", PTemporal: true, OBinding: "?o"}) +
+			" xg=" + strings.Join(xgs, ",") + " xgb=" + hx("?t") + " xp=" + hx("?t") + "|" + hx("") + "|0|0;" + hx("?s") + "|" + hx("?n") + "|1|0 xlo=- xhi=-"
+		return fmt.Sprintf(`select ?t, count(?s) as ?n from %s where { ?s "%s"@[?t] ?o } group by ?t having %s?t %s %s;`,
+			strings.Join(graphs, ", "), id, neg, op, fmtT(tm))
+	}
 	n := 1 + r.intn(3)
 	if r.chance(1, 6) {
 		n = 4
@@ -727,6 +783,21 @@ func (q *qgen) queryText(graphs []string) string {
 					xp = append(xp, hx(b)+"|"+hx(b+"c")+"|1|0")
 				}
 			}
+		}
+		if r.chance(1, 4) {
+			// a grouping binding that is also counted
+			b := bs[r.intn(nk)]
+			sel = append(sel, fmt.Sprintf("count(%s) as %sq", b, b))
+			xp = append(xp, hx(b)+"|"+hx(b+"q")+"|1|0")
+		}
+		if r.chance(1, 3) {
+			// any order of the SELECT list: aggregates before the keys they are grouped by
+			pm := r.perm(len(sel))
+			sel2, xp2 := make([]string, len(sel)), make([]string, len(sel))
+			for i, j := range pm {
+				sel2[i], xp2[i] = sel[j], xp[j]
+			}
+			sel, xp = sel2, xp2
 		}
 		text = fmt.Sprintf("select %s from %s where { %s } group by %s", strings.Join(sel, ", "), strings.Join(graphs, ", "), where, strings.Join(keys, ", "))
 		var xg []string
@@ -929,7 +1000,7 @@ func cmdQuery(args []string) error {
 			if ov {
 				o = "1"
 			}
-			line := fmt.Sprintf("Q overlap=%s text=%s %s%s", o, hx(text), stEnc, q.intent)
+			line := fmt.Sprintf("Q overlap=%s text=%s %s%s tk=%s", o, hx(text), stEnc, q.intent, hookTokens(text))
 			ans := res.cls
 			if res.cls == "ok" {
 				ans = res.text
